@@ -316,6 +316,100 @@ theorem committed_run_seeds_entry (hy : Hyp W) (σ : Store) (r : Run Cmd Input)
       simp only [hc, hclose, Bool.and_self, if_true, World.entry, Store.set, Option.get!]
       exact C13.open_close hy.hH W.deflate W.inflate hrl hql _ (hy.hcodec _)
 
+/-- **A run creates no entry that opens under another key**: if `cache.Open` fails for the sums `(rs, qs)` before a
+run whose own sums differ from them in the root sum or in the data sum, it still fails after it — whatever the run
+did (bypass, hit, `-o` hit that removes, broken hit, miss kept or removed), even when the two keys share a FILE NAME
+(the entry the run wrote carries its own sums in the header and fails validation under the other key).  Needs only
+the fixed digest size. -/
+theorem step_other_key_stays_missing (hH : ∀ x, (W.H x).length = W.d) (σ : Store) (r : Run Cmd Input)
+    {rs qs : Bytes} (hr : rs.length = W.d) (hq : qs.length = W.d)
+    (hne : rs ≠ W.rsum r.input ∨ qs ≠ W.dsum r.cmd)
+    (he : ∃ e, openAt W.H W.d σ rs qs = .error e) :
+    ∃ e, openAt W.H W.d (step W σ r).1 rs qs = .error e := by
+  have hset : ∀ v : Option Bytes,
+      (v = none ∨ v = some (finish W.H W.d W.deflate (W.rsum r.input) (W.dsum r.cmd) (W.exec r.cmd r.input).out)) →
+      ∃ e, openAt W.H W.d (Store.set σ (name W.H (W.rsum r.input) (W.dsum r.cmd)) v) rs qs = .error e := by
+    intro v hv
+    by_cases hn : name W.H rs qs = name W.H (W.rsum r.input) (W.dsum r.cmd)
+    · rcases hv with rfl | rfl
+      · exact ⟨.notFound, by simp [openAt, Store.set, hn]⟩
+      · cases ho : openAt W.H W.d (Store.set σ (name W.H (W.rsum r.input) (W.dsum r.cmd))
+            (some (finish W.H W.d W.deflate (W.rsum r.input) (W.dsum r.cmd) (W.exec r.cmd r.input).out))) rs qs with
+        | error e => exact ⟨e, rfl⟩
+        | ok body =>
+          exfalso
+          have hrl : (W.rsum r.input).length = W.d := hH _
+          have hql : (W.dsum r.cmd).length = W.d := hH _
+          simp only [openAt, Store.set, hn, if_true] at ho
+          rw [C13.finish_eq hH W.deflate hrl hql] at ho
+          have hs := C13.open_sound ho
+          unfold finished at hs
+          simp only [List.append_assoc] at hs
+          have h1 := List.append_inj hs (hrl.trans hr.symm)
+          have h2 := List.append_inj h1.2 (hql.trans hq.symm)
+          rcases hne with h | h
+          · exact h h1.1.symm
+          · exact h h2.1.symm
+    · obtain ⟨e, he⟩ := he
+      exact ⟨e, by simp only [openAt, Store.set, if_neg hn] at he ⊢; exact he⟩
+  unfold step
+  simp only
+  split
+  · exact he
+  · split
+    · split
+      · split
+        · exact hset none (.inl rfl)
+        · exact he
+      · exact he
+    · split
+      · exact hset _ (.inr rfl)
+      · exact hset none (.inl rfl)
+/-- … hence through every history none of whose runs has the key `(rs, qs)` -/
+theorem history_other_key_stays_missing (hH : ∀ x, (W.H x).length = W.d) {rs qs : Bytes}
+    (hr : rs.length = W.d) (hq : qs.length = W.d) :
+    ∀ (runs : List (Run Cmd Input)) (σ : Store),
+      (∀ r ∈ runs, rs ≠ W.rsum r.input ∨ qs ≠ W.dsum r.cmd) →
+      (∃ e, openAt W.H W.d σ rs qs = .error e) →
+      ∃ e, openAt W.H W.d (history W σ runs).1 rs qs = .error e
+  | [], _, _, he => he
+  | r :: rest, σ, hall, he =>
+    history_other_key_stays_missing hH hr hq rest (step W σ r).1
+      (fun r' hr' => hall r' (List.mem_cons_of_mem _ hr'))
+      (step_other_key_stays_missing W hH σ r hr hq (hall r (List.mem_cons_self ..)) he)
+
+/-- **A changed input (or option) misses the cache and recomputes** — the clause of the property, for ALL
+histories from the empty directory: a run that goes past `TryCache` and whose key differs from the key of EVERY
+earlier run of the history — in the root sum (a changed primary input) or in the data sum (a changed option or
+secondary input) — is a MISS, and it shows the bytes and the status of its own command body.  No hypothesis about
+the bodies, the payload or collisions: `hkey` is what makes the HITS right, the misses need only the digest size.
+(That a changed input HAS a different root sum is `hcollC`: `changed_content_misses`.) -/
+theorem changed_key_misses (hH : ∀ x, (W.H x).length = W.d) (runs : List (Run Cmd Input)) (r : Run Cmd Input)
+    (hlive : (r.nocache || !r.usable || (W.exec r.cmd r.input).early) = false)
+    (hnew : ∀ r' ∈ runs, W.rsum r.input ≠ W.rsum r'.input ∨ W.dsum r.cmd ≠ W.dsum r'.cmd) :
+    verdict W (history W emptyStore runs).1 r = .miss ∧
+    (step W (history W emptyStore runs).1 r).2 = (W.exec r.cmd r.input).observed := by
+  have he' : ∃ e, openAt W.H W.d (history W emptyStore runs).1 (W.rsum r.input) (W.dsum r.cmd) = .error e :=
+    history_other_key_stays_missing W hH (hH _) (hH _) runs emptyStore hnew
+      ⟨.notFound, by simp [openAt, emptyStore]⟩
+  obtain ⟨e, he⟩ := he'
+  constructor
+  · unfold verdict
+    rw [hlive, he]; rfl
+  · unfold step
+    simp only [hlive, he]; rfl
+
+/-- … stated on the input BYTES: under collision-freeness of the digest on the primary inputs in play (`hcollC` of
+`KeyParts`), a run whose primary input differs in content from the input of every earlier run misses and recomputes -/
+theorem changed_content_misses (hH : ∀ x, (W.H x).length = W.d)
+    (hcollC : ∀ i i', W.H (W.content i) = W.H (W.content i') → W.content i = W.content i')
+    (runs : List (Run Cmd Input)) (r : Run Cmd Input)
+    (hlive : (r.nocache || !r.usable || (W.exec r.cmd r.input).early) = false)
+    (hnew : ∀ r' ∈ runs, W.content r.input ≠ W.content r'.input) :
+    verdict W (history W emptyStore runs).1 r = .miss ∧
+    (step W (history W emptyStore runs).1 r).2 = (W.exec r.cmd r.input).observed :=
+  changed_key_misses W hH runs r hlive fun r' h => .inl fun heq => hnew r' h (hcollC _ _ heq)
+
 /-! ## the hypotheses cannot be dropped: two-run histories
 
 A toy world: digest `toyH` of C13 (one byte: the sum), identity codec, `Cmd = Bool × Bool`
@@ -352,6 +446,28 @@ theorem transparent_needs_payload_refuted :
     emptyStore, Store.set, hn]
   decide
 
+/-- **… and `hkey` is the ONLY hypothesis that fails in that witness world** (audit C14a F6): the history above
+is not transparent, and `toyWorld false false` satisfies the digest size, the codec round trip and `hcommit`
+(`Commit()` only on success); what fails is `hkey` — the commands `(false, false)` and `(true, false)` have the
+same sums and different outcomes.  So the refutation is tight: it is the missing option in the payload, nothing
+else, that breaks transparency. -/
+theorem transparent_needs_payload_refuted_tight :
+    ((history (toyWorld false false) emptyStore [toyRun false false, toyRun true false]).2
+        = [⟨[1], 0⟩, ⟨[1], 0⟩] ∧
+      ((toyWorld false false).exec (true, false) ()).observed = ⟨[2], 0⟩) ∧
+    (∀ x, ((toyWorld false false).H x).length = (toyWorld false false).d) ∧
+    (∀ w, (toyWorld false false).inflate ((toyWorld false false).deflate w) = some w) ∧
+    (∀ c i, ((toyWorld false false).exec c i).committed = true → ((toyWorld false false).exec c i).status = 0) ∧
+    ¬ (∀ c c' i i', (toyWorld false false).rsum i = (toyWorld false false).rsum i' →
+        (toyWorld false false).dsum c = (toyWorld false false).dsum c' →
+        (toyWorld false false).exec c i = (toyWorld false false).exec c' i') := by
+  refine ⟨transparent_needs_payload_refuted, C13.toyH_size, fun _ => rfl, ?_, ?_⟩
+  · intro c i h
+    rcases c with ⟨a, b⟩
+    cases b <;> simp_all [toyWorld, toyExec]
+  · intro h
+    exact absurd (h (false, false) (true, false) () () rfl rfl) (by decide)
+
 /-- … and with the complete payload the same history is transparent -/
 example : (history (toyWorld true false) emptyStore [toyRun false false, toyRun true false]).2
     = [⟨[1], 0⟩, ⟨[2], 0⟩] := by
@@ -372,6 +488,29 @@ theorem transparent_needs_commit_refuted :
   simp [history, step, toyWorld, toyRun, toyExec, World.rsum, World.dsum, Outcome.observed, openAt,
     emptyStore, Store.set, hn]
   decide
+
+/-- **… and `hcommit` is the ONLY hypothesis that fails in that witness world** (audit C14a F6): the history
+above is not transparent, and `toyWorld true true` satisfies the digest size, the codec round trip and `hkey` (the
+four commands have four different data sums); what fails is `hcommit` — the failing command is `committed` with
+status 1. -/
+theorem transparent_needs_commit_refuted_tight :
+    ((history (toyWorld true true) emptyStore [toyRun false true, toyRun false true]).2
+        = [⟨[], 1⟩, ⟨[], 0⟩] ∧
+      ((toyWorld true true).exec (false, true) ()).observed = ⟨[], 1⟩) ∧
+    (∀ x, ((toyWorld true true).H x).length = (toyWorld true true).d) ∧
+    (∀ w, (toyWorld true true).inflate ((toyWorld true true).deflate w) = some w) ∧
+    (∀ c c' i i', (toyWorld true true).rsum i = (toyWorld true true).rsum i' →
+        (toyWorld true true).dsum c = (toyWorld true true).dsum c' →
+        (toyWorld true true).exec c i = (toyWorld true true).exec c' i') ∧
+    ¬ (∀ c i, ((toyWorld true true).exec c i).committed = true → ((toyWorld true true).exec c i).status = 0) := by
+  refine ⟨transparent_needs_commit_refuted, C13.toyH_size, fun _ => rfl, ?_, ?_⟩
+  · intro c c' i i' _ h
+    have : c = c' := by
+      rcases c with ⟨a, b⟩; rcases c' with ⟨a', b'⟩
+      revert h; cases a <;> cases b <;> cases a' <;> cases b' <;> decide
+    subst this; rfl
+  · intro h
+    exact absurd (h (false, true) () rfl) (by decide)
 
 /-- … with `Commit` only on success the failed run leaves nothing and the second run fails too -/
 example : (history (toyWorld true false) emptyStore [toyRun false true, toyRun false true]).2
@@ -396,6 +535,17 @@ example : Hyp (toyWorld true false) where
     intro c i h
     rcases c with ⟨a, b⟩
     cases b <;> simp_all [toyWorld, toyExec]
+
+/-- non-vacuity of `step_other_key_stays_missing` / `history_other_key_stays_missing` / `changed_key_misses`: in the
+toy world, after the base run and a failing run, the run with the CHANGED OPTION (`invert`) has a data sum that differs
+from both, goes past `TryCache`, and is a miss that shows its own output `[2]` (the inputs of this world do not vary:
+for a changed INPUT see `sortWorld` in `Props/C14Gen.lean`) -/
+example : verdict (toyWorld true false) (history (toyWorld true false) emptyStore [toyRun false false, toyRun false true]).1
+      (toyRun true false) = .miss ∧
+    (step (toyWorld true false) (history (toyWorld true false) emptyStore [toyRun false false, toyRun false true]).1
+      (toyRun true false)).2 = ⟨[2], 0⟩ :=
+  changed_key_misses (toyWorld true false) C13.toyH_size [toyRun false false, toyRun false true] (toyRun true false) rfl
+    (by decide)
 
 /-! ## (C) the encoding of the payload -/
 
